@@ -2021,21 +2021,28 @@ class _Duration(Duration):
     def from_timedelta(
         cls, delta: timedelta, *, _1_microsecond: timedelta = timedelta(microseconds=1)
     ) -> "_Duration":
-        total_ms = delta // _1_microsecond
-        seconds = int(total_ms / 1e6)
-        nanos = int((total_ms % 1e6) * 1e3)
-        return cls(seconds, nanos)
+        total_us = delta // _1_microsecond
+        # Integer arithmetic: seconds and nanos must have the same sign and
+        # floats cannot represent every microsecond of the valid range.
+        seconds = abs(total_us) // 10**6
+        us = abs(total_us) % 10**6
+        if total_us < 0:
+            seconds, us = -seconds, -us
+        return cls(seconds, us * 1000)
 
     def to_timedelta(self) -> timedelta:
         return timedelta(seconds=self.seconds, microseconds=self.nanos / 1e3)
 
     @staticmethod
     def delta_to_json(delta: timedelta) -> str:
-        parts = str(delta.total_seconds()).split(".")
-        if len(parts) > 1:
-            while len(parts[1]) not in (3, 6, 9):
-                parts[1] = f"{parts[1]}0"
-        return f"{'.'.join(parts)}s"
+        total_us = delta // timedelta(microseconds=1)
+        sign = "-" if total_us < 0 else ""
+        seconds, us = divmod(abs(total_us), 10**6)
+        if us % 1000 == 0:
+            # Serialize 3 fractional digits.
+            return f"{sign}{seconds}.{us // 1000:03d}s"
+        # Serialize 6 fractional digits.
+        return f"{sign}{seconds}.{us:06d}s"
 
 
 class _Timestamp(Timestamp):
